@@ -48,12 +48,12 @@ func TimestampFromOOBData(oob []byte) (time.Time, error) {
 				var ts time.Time
 				if sec2 != 0 || nsec2 != 0 {
 					if sec0 != 0 || nsec0 != 0 || sec1 != 0 || nsec1 != 0 {
-						panic("unexpected timestamping behavior")
+						return time.Time{}, errUnexpectedData
 					}
 					ts = time.Unix(sec2, nsec2).UTC()
 				} else {
 					if sec1 != 0 || nsec1 != 0 || sec2 != 0 || nsec2 != 0 {
-						panic("unexpected timestamping behavior")
+						return time.Time{}, errUnexpectedData
 					}
 					ts = time.Unix(sec0, nsec0).UTC()
 				}
@@ -66,7 +66,11 @@ func TimestampFromOOBData(oob []byte) (time.Time, error) {
 				return time.Unix(ts.Unix()).UTC(), nil
 			}
 		}
-		oob = oob[unix.CmsgSpace(int(h.Len))-unix.CmsgSpace(0):]
+		n := unix.CmsgSpace(int(h.Len)) - unix.CmsgSpace(0)
+		if n > len(oob) {
+			return time.Time{}, errUnexpectedData
+		}
+		oob = oob[n:]
 	}
 	return time.Time{}, errTimestampNotFound
 }
